@@ -484,43 +484,50 @@ CLAIMED['C13'] = dict(
 CLAIMED['C16'] = dict(
     technique='Lean 4 theorems about a heap-level model of Collection.aggregate (object identities '
               'of store, caller and run-local objects; per-stage edit discipline REGENERATED from '
-              'mongomock/aggregate.py): frame lemmas, read-only for non-writing stages, '
-              'repeatability, refutations of the full statements by the known findings; tied to '
-              'the code by the discipline translator, model correspondence and direct '
-              'before/after oracles on the real objects',
+              'mongomock/aggregate.py): an invariant ("what the call works on was allocated by the '
+              'call, in a window of identities nothing persistent lives in") carried by mutual '
+              'induction through every stage and every $facet branch; read-only, pipeline argument '
+              'unchanged, repeatable, $facet isolation, $sample sub-multiset, $out; tied to the '
+              'code by the discipline translator, model correspondence and direct before/after '
+              'oracles on the real objects',
     text='A translator reads mongomock/aggregate.py and collection.py (AST) and regenerates '
-         'Generated/AggDiscipline.lean: for each stage handler whether it builds new documents, '
-         'shallow-copies then writes nested paths in place, writes into its input document, '
-         'deep-copies, mutates its options, and how aggregate obtains its working list; theorem '
+         'Generated/AggDiscipline.lean (how aggregate obtains its working list, how each stage '
+         'handler copies / writes in place, whether $sample edits its options, whether $facet '
+         'copies its input per branch, how $literal and array constants are handed out); theorem '
          'discipline_current (by decide) ties the table to the reference the other theorems are '
-         'about. Lean 4 theorems about MongoModel/AggHeap.lean: an in-place write to a non-store '
-         'object leaves every collection identical, and leaves the pipeline object identical when '
-         'the written object was allocated by the run (frame lemmas, all worlds); under the '
-         'reference discipline every object of the working list is a new object of the call '
-         '(find() copies); a deep copy equals its source as a value; every stage that performs no '
-         'in-place write (select, project, unwind, replaceRoot, count) leaves collections, '
-         'indexes, pipeline and the facet stack unchanged for every discipline '
-         '(aggregate_readonly_partial); a call that leaves collections, index entries, pipeline '
-         'and store counter unchanged returns the same answer when run again (repeatable). The '
-         'full statements "the pipeline argument is never modified" and "facet branches are '
-         'isolated" are refuted in Lean by the known findings\' witnesses '
-         '(pipeline_arg_unchanged_full_fails, sample_second_run_fails, facet_isolated_full_fails, '
-         'facet_isolated_full_fails_lookup), which nevertheless leave the store unchanged. Tie: '
-         'generated pipelines emphasising document-editing stages ($addFields/$set on nested '
-         'paths, $lookup, $unwind, $project, $facet with editing branches, $sample, $out) over '
-         '2-3 collections; on /repo: every collection (raw store, find, index_information, names) '
-         'and the pipeline object (by value and by identity of every nested container) before / '
-         'after, the same pipeline object run twice, every $facet branch against its stand-alone '
-         'run on the very objects the prefix returns, $out target == returned == prefix output, '
-         '$sample sub-multiset of the requested size, scribbling on returned documents must not '
-         'reach the store; on the modelled fragment all of these answers are compared with the '
-         'compiled model exactly.',
-    note='Partial: the induction carrying "no store identity occurs in the working data" through '
-         'the writing stages ($lookup, nested $addFields, $sample, $facet), the $out theorems and '
-         'the $sample Subperm theorem are not proved; those clauses rest on the direct oracles '
-         'and the correspondence. $group, $graphLookup, $bucket and expression operators are '
-         'outside the modelled fragment (direct oracles only). Known findings: sample-pops-size, '
-         'facet-sibling-nested-addfields, facet-sibling-lookup, literal-written.')
+         'about (the discipline after the repairs c81c98c, f3c4371, 2eb2452). Lean 4 theorems '
+         'about MongoModel/AggHeap.lean, for EVERY stage list of the modelled stages ($match/'
+         '$sort/$skip/$limit, $sample, $addFields/$set incl. dotted paths, $project, $unwind, '
+         '$lookup, $replaceRoot, $count, $facet nested arbitrarily), every state whose persistent '
+         'part holds no run-local identity, and every value-level semantics Sem: without $out the '
+         'collections, index entries, store counter (aggregate_readonly, _stages) and the very '
+         'pipeline object (pipeline_arg_unchanged; also for pipelines ending in $out: '
+         'pipeline_arg_unchanged_out) are identical after the call, hence the state is identical '
+         'and the call repeated gives the same answer (repeatable, no further hypotheses); $sample '
+         'returns a sub-list of a rearrangement of its input of length min(size, |input|) for '
+         'every permutation drawn and changes nothing else (sample_submultiset); $facet returns '
+         '{title_j: outs_j} where outs_j is sub-pipeline j run alone on a fresh deep copy of the '
+         'stage\'s original input against the original collections and pipeline object '
+         '(facet_isolated, with the invariant shown to hold initially and after every stage); '
+         'after pre ++ [$out t] on documents carrying their _id the target holds exactly the '
+         'output of pre, other collections are untouched and the output is passed through '
+         '(out_replaces_target, out_passes_through). The same laws are shown to FAIL under the '
+         'discipline /repo had before the repairs (unrepaired_* on the replayed witnesses). Tie: '
+         'generated pipelines emphasising document-editing stages over 2-3 collections; on /repo: '
+         'every collection (raw store, find, index_information, names) and the pipeline object (by '
+         'value and by identity of every nested container) before / after, the same pipeline '
+         'object run twice, every $facet branch against its stand-alone run on the very objects '
+         'the prefix returns, $out target == returned == prefix output, $sample sub-multiset of '
+         'the requested size, scribbling on returned documents must not reach the store; on the '
+         'modelled fragment all of these answers are compared with the compiled model exactly.',
+    note='facet_isolated states equality with the stand-alone run up to the numbering of fresh '
+         'identities (value equality is the direct oracle); the $out theorems assume the documents '
+         'carry their _id (generated _ids: direct oracle) and $out as the last top-level stage; '
+         'inputs in which one object occurs twice are outside the model for $unwind and $facet '
+         '(deepcopy memo). $group, $graphLookup, $bucket and expression operators are outside the '
+         'modelled fragment (direct oracles only). Four defects found and fixed in /repo: '
+         'sample-pops-size, facet-sibling-nested-addfields, facet-sibling-lookup, literal-written '
+         '(a recurrence is a VIOLATION).')
 
 CLAIMED['C03'] = dict(
     technique='Lean 4 theorems about a model of process_pipeline and the stage handlers '
